@@ -17,4 +17,7 @@ func init() {
 	mut("C14", "connection-deleted-first", "header/hopbyhop_modifier.go", "func removeHopByHopHeaders(header http.Header) {\n", "func removeHopByHopHeaders(header http.Header) {\n\tfor _, k := range hopByHopHeaders {\n\t\theader.Del(k)\n\t}\n", "C14.R2", "")
 	mut("C14", "framing-te-check-dropped", "header/framing_modifier.go", "if strings.TrimSpace(last[len(last)-1]) != \"chunked\" {", "if len(last) == 0 {", "C14.R7", "chunked")
 	twin("C14", "via-values-method", "header/via_modifier.go", "if v := strings.Join(req.Header[\"Via\"], \", \"); v != \"\" {", "if v := strings.Join(req.Header.Values(\"Via\"), \", \"); v != \"\" {")
+	mut("C14", "hopbyhop-added-last", "httpspec/httpspec.go", "\touter.AddRequestModifier(hbhm)\n\touter.AddRequestModifier(header.NewForwardedModifier())\n\touter.AddRequestModifier(header.NewBadFramingModifier())\n", "\touter.AddRequestModifier(header.NewForwardedModifier())\n\touter.AddRequestModifier(header.NewBadFramingModifier())\n\touter.AddRequestModifier(hbhm)\n", "C14.R1", "precedes the modifiers")
+	mut("C14", "single-content-length-skipped", "header/framing_modifier.go", "\t\t\tif len(cls) > 0 {", "\t\t\tif len(cls) > 1 {", "C14.R7", "single line")
+	twin("C14", "content-length-guard-not-zero", "header/framing_modifier.go", "\t\t\tif len(cls) > 0 {", "\t\t\tif len(cls) != 0 {")
 }
